@@ -305,6 +305,8 @@ def cases(ctx):
                     sp[{'s': 1, 'e': 6}[which[0]]][{'x': 0, 'y': 1}[which[1]]] = float(v)
                 return sp
             va, vb = rng.choice([(-1, -2), (-2, -1)])
+            if any(sp[1] == sp[6] for sp in (with_val(va), with_val(vb))):
+                continue
             yield {'kind': 'arc', 'arc': with_val(vb), 'twin': with_val(va), 'cls': ['hash-twin']}
             continue
         if rng.random() < 0.15:
